@@ -34,7 +34,7 @@ type c18Step struct {
 }
 
 var c18Ops = append(append([]string{}, allCtxOps...), "String", "Text", "Format", "Cmp", "CmpTotal", "Sign", "NumDigits", "Int64", "Float64", "Modf", "Decompose",
-	"MarshalText", "Value", "Size", "Coeff", "Set", "NegAbs", "ReduceDec", "Parse", "ErrDecimal", "Condition")
+	"MarshalText", "Value", "Size", "Coeff", "Set", "NegAbs", "ReduceDec", "Parse", "ErrDecimal", "Condition", "CoeffArith", "Rounder", "Append")
 
 // c18Pool builds the shared operands of one round. The round number varies
 // the exponent gaps and digit counts so that every round touches table
@@ -91,7 +91,11 @@ func c18Contexts(r *rng.R, round int) []*apd.Context {
 	var out []*apd.Context
 	for i := 0; i < 3; i++ {
 		p := ps[(round+i*3)%len(ps)]
-		out = append(out, br.Context(dec.Ctx{P: p, Emin: -6143, Emax: 6144, Mode: dec.Modes[(round+i)%8]}, 0))
+		// every round shares contexts with different trap sets: trapped conditions
+		// go through Condition.GoError and the error paths of the composite functions
+		traps := []apd.Condition{0, apd.DefaultTraps, apd.Inexact | apd.Rounded, br.AllFlags, apd.Underflow | apd.Subnormal | apd.Clamped,
+			apd.Condition(r.U64()) & br.AllFlags}[(round+2*i)%6]
+		out = append(out, br.Context(dec.Ctx{P: p, Emin: -6143, Emax: 6144, Mode: dec.Modes[(round+i)%8]}, traps))
 	}
 	return out
 }
@@ -154,7 +158,16 @@ func c18Exec(st *c18Step, ctxs []*apd.Context, pool []*apd.Decimal) string {
 			return "skip"
 		}
 		var i, f apd.Decimal
-		x.Modf(&i, &f)
+		switch st.aux & 3 { // either part may be nil
+		case 0:
+			x.Modf(nil, &f)
+		case 1:
+			x.Modf(&i, nil)
+		case 2:
+			x.Modf(nil, nil)
+		default:
+			x.Modf(&i, &f)
+		}
 		return meaningful(br.FromApd(&i)) + "|" + meaningful(br.FromApd(&f))
 	case op == "Decompose":
 		form, neg, coef, exp := x.Decompose(make([]byte, 0, 16))
@@ -202,6 +215,33 @@ func c18Exec(st *c18Step, ctxs []*apd.Context, pool []*apd.Decimal) string {
 		c := apd.Condition(uint32(st.aux+9)) & br.AllFlags
 		_, err := c.GoError(ctx.Traps)
 		return c.String() + fmt.Sprint(err != nil, apd.BaseContext.Precision, ctx.WithPrecision(7).Precision)
+	case op == "CoeffArith":
+		// shared coefficients as read-only arguments of BigInt methods with private receivers
+		a, b := &x.Coeff, &y.Coeff
+		var z, w, u, v apd.BigInt
+		out := z.Add(a, b).String() + z.Sub(a, b).String() + w.Mul(a, b).String() + u.And(a, b).String() + v.Or(a, b).String()
+		if b.Sign() != 0 {
+			var q, m apd.BigInt
+			q.QuoRem(a, b, &m)
+			out += q.String() + m.String() + w.Quo(a, b).String() + w.Rem(a, b).String()
+		}
+		out += u.Lsh(a, uint(st.aux&7+1)).String() + v.Rsh(a, uint(st.aux&7+1)).String() + w.Neg(a).String() + z.Abs(b).String() + w.Sqrt(z.Abs(a)).String()
+		out += fmt.Sprint(a.CmpAbs(b), a.Cmp(b), a.Int64(), a.Uint64(), string(a.Append(nil, 10)), a.Bits())
+		var g apd.BigInt
+		if a.Sign() > 0 && b.Sign() > 0 {
+			out += g.GCD(nil, nil, a, b).String()
+		}
+		return out
+	case op == "Rounder":
+		var e apd.Decimal
+		res := ctx.Rounding.Round(ctx, &e, x, st.aux&1 == 0)
+		abs := new(apd.BigInt).Abs(&x.Coeff)
+		return fmt.Sprint(meaningful(br.FromApd(&e)), br.FlagNames(res), ctx.Rounding.ShouldAddOne(abs, x.Negative, int(st.aux%2)))
+	case op == "Append":
+		if x.Form == apd.Finite && (x.Exponent > 300 || x.Exponent < -300) {
+			return string(x.Append(make([]byte, 0, 8), 'E'))
+		}
+		return string(x.Append(nil, "eEfgG"[st.aux&3])) + fmt.Sprintf("%s|%q|%08.2e|% g|%x", x, x, x, x, x)
 	case op == "ReduceDec":
 		_, n := d.Reduce(x)
 		return fmt.Sprint(meaningful(br.FromApd(&d)), n)
@@ -258,7 +298,7 @@ func runC18(r *mon.Run) {
 	r.Rule = "rounds of G goroutines (G in {4,16,64}, GOMAXPROCS in {2,16}) released by a barrier; all share 3 Contexts and a pool of ~70 operand " +
 		"Decimals (inline <=64-bit, inline 65..128-bit, heap-backed, heap-backed-but-small, far-apart exponents that need powers of ten beyond " +
 		"the lookup table - different ones every round -, zeros, NaN/sNaN/Inf, small values for the transcendental functions); each goroutine " +
-		"runs a seeded sequence over the 22 Context operations and 18 read-only Decimal/BigInt method groups with private destinations. " +
+		"runs a seeded sequence over the 22 Context operations and 21 read-only Decimal/BigInt method groups (Modf with either part nil, shared coefficients as BigInt arguments, Rounder, Append/Format) with private destinations; the shared Contexts carry different trap sets (none, DefaultTraps, Inexact|Rounded, all, underflow group, random). " +
 		"Deciding oracle: the Go race detector (binary built with -race; reports collected from its log); second: every concurrent result " +
 		"equals the sequential result computed AFTER the concurrent phase (so first touches of lazily initialised state happen " +
 		"concurrently), including a power-of-ten pressure phase in which 16 goroutines hammer shared operands whose coefficient lengths " +
